@@ -466,6 +466,22 @@ impl Writer {
                     }
                 }
 
+                // fsync all touched files; a batch whose data cannot be flushed has failed as well
+                let mut flush_error = None;
+                if all_success {
+                    let mut fsynced = HashSet::new();
+                    for (blk, _, _) in write_plan.iter() {
+                        if !fsynced.contains(&blk.file_path) {
+                            if let Err(e) = blk.mmap.flush() {
+                                all_success = false;
+                                flush_error = Some(e);
+                                break;
+                            }
+                            fsynced.insert(blk.file_path.clone());
+                        }
+                    }
+                }
+
                 if !all_success {
                     // Clean up garbage before rollback: zero headers for all planned entries
                     for (blk, offset, _idx) in write_plan.iter() {
@@ -485,19 +501,12 @@ impl Writer {
                     for block_id in revert_info.allocated_block_ids.iter() {
                         FileStateTracker::set_block_unlocked(*block_id as usize);
                     }
-                    return Err(std::io::Error::new(
-                        std::io::ErrorKind::Other,
-                        "batch write failed, rolled back",
-                    ));
-                }
-
-                // Success - fsync all touched files
-                let mut fsynced = HashSet::new();
-                for (blk, _, _) in write_plan.iter() {
-                    if !fsynced.contains(&blk.file_path) {
-                        blk.mmap.flush()?;
-                        fsynced.insert(blk.file_path.clone());
-                    }
+                    return Err(flush_error.unwrap_or_else(|| {
+                        std::io::Error::new(
+                            std::io::ErrorKind::Other,
+                            "batch write failed, rolled back",
+                        )
+                    }));
                 }
 
                 // NOW update the writer's offset to make data visible to readers
